@@ -96,7 +96,9 @@ def construct_token_dictionary_and_frequency(token_sequence, token_dictionary=No
     index_list = [
         token_dictionary[token] for token in token_sequence if token in token_dictionary
     ]
-    token_counts = np.bincount(index_list).astype(np.float32)
+    token_counts = np.bincount(index_list, minlength=len(token_dictionary)).astype(
+        np.float32
+    )
 
     token_frequency = token_counts / n_tokens
 
